@@ -3,6 +3,9 @@
 recognised statement forms is reported and the default program is emitted instead."""
 import ast
 
+# source functions whose control flow is regenerated on every run (coverage audit contract)
+TRANSLATED = ['pyramid/view.py:_find_views']
+
 KEY_BASE = ['request_iface', 'context_iface', 'view_name']
 KEY_EXTRA = ['view_classifier', 'view_types']
 ATTR = 'registry._view_lookup_cache'
@@ -163,13 +166,23 @@ def clear_mode(fn, owner):
 
 
 def translate_register(fn, mode):
-    """the register action of add_view: order of register_view(...) calls and the cache clear"""
+    """the register action of add_view: order of register_view(...) calls and the cache clear.  The clear must be an
+    unconditional top-level statement of the action (a conditional or early-exited clear is not expressible as a
+    program); register_view calls may sit under the `if not exception_only:` / `if isexc:` tests."""
     ev = []
+    top_clear = set()
+    for st in _strip_doc(fn.body):
+        if isinstance(st, ast.Expr) and isinstance(st.value, ast.Call) \
+                and u(st.value.func).endswith('._clear_view_lookup_cache'):
+            top_clear.add(id(st.value))
 
     class V(ast.NodeVisitor):
         def visit_FunctionDef(self, node):      # nested helper definitions are not executed here
             if node is fn:
                 self.generic_visit(node)
+
+        def visit_Return(self, node):
+            raise Unknown('register action returns early (line %d)' % node.lineno)
 
         def visit_Call(self, node):
             self.generic_visit(node)
@@ -179,14 +192,137 @@ def translate_register(fn, mode):
             elif u(node.func).endswith('._clear_view_lookup_cache'):
                 if u(node.func) != 'self.registry._clear_view_lookup_cache' or node.args or node.keywords:
                     raise Unknown('cache clear call: %s' % u(node))
+                if id(node) not in top_clear:
+                    raise Unknown('the cache clear is conditional / nested (line %d)' % node.lineno)
                 ev.append('Clear %s' % mode)
             elif '_view_lookup_cache' in u(node.func):
                 raise Unknown('cache touched in register: %s' % u(node))
 
+        def visit_Attribute(self, node):
+            self.generic_visit(node)
+            if node.attr == '_view_lookup_cache':
+                raise Unknown('cache touched in register (line %d)' % node.lineno)
+
     V().visit(fn)
+    for n in ast.walk(fn):
+        if isinstance(n, (ast.Try, ast.While, ast.For, ast.With)) and any(
+                isinstance(c, ast.Call) and (u(c.func).endswith('._clear_view_lookup_cache') or
+                                             (isinstance(c.func, ast.Name) and c.func.id == 'register_view'))
+                for c in ast.walk(n)):
+            raise Unknown('registration or clear inside a %s block' % type(n).__name__)
     if 'RegisterAdapter' not in ev:
         raise Unknown('register action does not call register_view')
     return ev
+
+
+def register_tail(fn):
+    """the statements of the register action from the first one that calls register_view to the end: which classifier
+    is registered under which test, and the clear -- shape-pinned as a fragment (the statements before it only compute
+    the renderer / permission handed to the derivers)"""
+    body = _strip_doc(fn.body)
+    for i, st in enumerate(body):
+        if any(isinstance(c, ast.Call) and isinstance(c.func, ast.Name) and c.func.id == 'register_view'
+               for c in ast.walk(st)):
+            import hashlib
+            mod = ast.Module(body=body[i:], type_ignores=[])
+            return hashlib.sha1(ast.dump(ast.parse(ast.unparse(mod))).encode()).hexdigest()[:16]
+    raise Unknown('register action does not call register_view')
+
+
+CACHE_NAMES = ('_view_lookup_cache', '_clear_view_lookup_cache')
+CACHE_SITES = {
+    'pyramid/view.py': {'_find_views'},
+    'pyramid/registry.py': {'Registry.__init__', 'Registry._clear_view_lookup_cache'},
+    'pyramid/config/__init__.py': {'Configurator._fix_registry', 'Configurator._fix_registry._clear_view_lookup_cache'},
+    'pyramid/config/views.py': {'ViewsConfiguratorMixin.add_view.register'},
+}
+
+
+def _qual_walk(tree):
+    """yield (qualname of the innermost enclosing function/class chain, node) for every node"""
+    def walk(node, qual):
+        for ch in ast.iter_child_nodes(node):
+            q = qual
+            if isinstance(ch, (ast.FunctionDef, ast.AsyncFunctionDef, ast.ClassDef)):
+                q = (qual + '.' if qual else '') + ch.name
+            yield q, ch
+            for x in walk(ch, q):
+                yield x
+    return walk(tree, '')
+
+
+def cache_touch_sites(src_root):
+    """every mention of the cache attribute, the clear method or a `._lock` attribute, in ALL of src/pyramid (tests
+    excluded), must sit in one of the functions the model covers; string mentions (getattr/setattr/hasattr/__dict__)
+    count too"""
+    import os
+    bad = []
+    for d, _, fs in os.walk(os.path.join(src_root, 'pyramid')):
+        for fn in fs:
+            if not fn.endswith('.py'):
+                continue
+            path = os.path.join(d, fn)
+            rel = os.path.relpath(path, src_root)
+            text = open(path).read()
+            if not any(n in text for n in CACHE_NAMES) and '._lock' not in text:
+                continue
+            allowed = CACHE_SITES.get(rel, set())
+            for q, n in _qual_walk(ast.parse(text)):
+                hit = None
+                if isinstance(n, ast.Attribute) and (n.attr in CACHE_NAMES or n.attr == '_lock'):
+                    hit = n.attr
+                elif isinstance(n, ast.Constant) and isinstance(n.value, str) and \
+                        (n.value in CACHE_NAMES or n.value == '_lock'):
+                    hit = repr(n.value)
+                elif isinstance(n, ast.FunctionDef) and n.name in CACHE_NAMES:
+                    hit = 'def ' + n.name
+                    q = q  # the definition itself is a site of its own qualname
+                if hit is None:
+                    continue
+                if q not in allowed:
+                    bad.append('%s:%s mentions %s (line %d)' % (rel, q or '<module>', hit, getattr(n, 'lineno', 0)))
+    if bad:
+        raise Unknown('; '.join(bad[:4]))
+    return True
+
+
+def view_adapter_sites(tree):
+    """config/views.py: view adapters are (un)registered only inside add_view.register_view"""
+    bad = []
+    for q, n in _qual_walk(tree):
+        if isinstance(n, ast.Call) and isinstance(n.func, ast.Attribute) and \
+                n.func.attr in ('registerAdapter', 'unregisterAdapter', 'unregister', 'register') and \
+                ('registry' in u(n.func.value) or 'adapters' in u(n.func.value)):
+            if q != 'ViewsConfiguratorMixin.add_view.register_view':
+                bad.append('%s line %d: %s' % (q, n.lineno, u(n.func)))
+    if bad:
+        raise Unknown('; '.join(bad[:4]))
+    return True
+
+
+REGISTRY_MEMBERS = ['has_listeners', '_settings', '__init__', '_clear_view_lookup_cache', '__bool__', 'package_name',
+                    'registerSubscriptionAdapter', 'registerSelfAdapter', 'queryAdapterOrSelf', 'registerHandler',
+                    'notify', '_get_settings', '_set_settings', 'settings']
+
+
+def registry_class(cls):
+    """class Registry: bases and member names (a new __setattr__/__getattr__/property/descriptor would change how the
+    cache attribute and the lock are stored); decorators of the two cache methods"""
+    if [u(b) for b in cls.bases] != ['Components', 'dict'] or cls.keywords or cls.decorator_list:
+        raise Unknown('bases of Registry: %s' % [u(b) for b in cls.bases])
+    names = []
+    for st in _strip_doc(cls.body):
+        if isinstance(st, ast.FunctionDef):
+            names.append(st.name)
+            if st.name in ('__init__', '_clear_view_lookup_cache') and st.decorator_list:
+                raise Unknown('Registry.%s is decorated' % st.name)
+        elif isinstance(st, ast.Assign) and len(st.targets) == 1 and isinstance(st.targets[0], ast.Name):
+            names.append(st.targets[0].id)
+        else:
+            raise Unknown('class-level statement in Registry: %s' % u(st)[:60])
+    if names != REGISTRY_MEMBERS:
+        raise Unknown('members of Registry: %s' % [n for n in names if n not in REGISTRY_MEMBERS] or names)
+    return True
 
 
 def coq_prog(p):
